@@ -41,6 +41,8 @@ QUERIES = {
     'runtime-error': 'select a1 where [0][len(a2)] == 0',
     'distinct-len': 'select distinct len(a1), a2',
     'distinct-nr0': 'select distinct NR * 0, a1',
+    'update-append': "update set a1 = a1 + '!', a2 = a1",
+    'update-swap-join': 'update set a1 = b2, a2 = a1 join b on a1 == b1',
 }
 
 ADAPTERS = '''
@@ -125,6 +127,17 @@ def via_user_objects(q, T, B):
     return w.rows, w.header
 
 
+def via_sequence(q, T, B):
+    """The list front-ends one after the other over the SAME table objects (no copies in between): each must see the data the caller built."""
+    r1 = via_query_table(q, T, B)
+    r2 = via_table_adapters(q, T, B)
+    r3 = via_user_objects(q, T, B)
+    r4 = via_query_table(q, T, B)
+    if strs(r1[0]) == strs(r2[0]) == strs(r3[0]) == strs(r4[0]):
+        return r4
+    return [['front-ends disagree in sequence'], r1[0], r2[0], r3[0], r4[0]], None
+
+
 def via_csv_bom(q, T, B):
     """The same CSV text behind a UTF-8 BOM, read as utf-8: the BOM is not data."""
     text = chr(0xFEFF) + csvref.write_table(T, CSV_DLM, CSV_POLICY)
@@ -161,9 +174,9 @@ def _adapter_obl(qname, a_rows, b_rows, timeout, which='via_table_adapters', csv
 T = %s
 B = %s
 base = outcome(lambda: via_query_table(QUERY, qh.copy_table(T), qh.copy_table(B)))
-other = outcome(lambda: %s(QUERY, qh.copy_table(T), qh.copy_table(B)))
+other = outcome(lambda: %s(QUERY, %s))
 return (other, base)
-''' % (texpr, bexpr, which))
+''' % (texpr, bexpr, which, 'T, B' if which == 'via_sequence' else 'qh.copy_table(T), qh.copy_table(B)'))
     src = harness('from vf import qh\nQUERY = %r\nCSV_DLM = %r\nCSV_POLICY = %r\n' % (query, csv[0], csv[1]), params, pre, body, extra_defs=ADAPTERS)
     return Obl('adapters[%s|%s%s|A=%s%s]' % (qname, which[4:], ('/' + csv[1]) if which == 'via_csv' else '', qh.shape_name(a_rows), (',B=' + qh.shape_name(b_rows)) if b_rows else ''), src, timeout=timeout,
                meta={'query': query, 'bounds': 'every table of shape %s of 1-character strings without CR/LF' % qh.shape_name(a_rows)})
@@ -307,6 +320,50 @@ return ((calls, code, out_text, err_text.startswith('Error [generic]: ') and err
     return Obl('cli_reject[%s]' % aname, src, timeout=timeout, meta={'argv': argv, 'bounds': 'every stub outcome'})
 
 
+STDIO = '''
+import io, types
+from vf.refmodel import csvref
+from vf import qh
+
+class KeepBytes(io.BytesIO):
+    """Byte sink standing for the OS stream behind sys.stdout / a file: remembers what reached it, survives close() of the text layer above."""
+    def close(self):
+        pass
+
+POOL = {'latin-1': (0x61, 0xe9, 0xff, 0x22), 'utf-8': (0x61, 0xe9, 0x20ac, 0x22)}
+'''
+
+
+def _stdio_obl(enc, to_stdout, timeout):
+    """Bytes in, bytes out through the REAL encoding layers of the CSV front-end (nothing stubbed): the output stream carries the result in
+    the requested encoding whether it is the process's stdout (a text stream with its own encoding) or a file opened by the front-end."""
+    body = indent('''
+c = chr(qh.concretize(n0, POOL[ENC]))
+d = chr(qh.concretize(n1, POOL[ENC]))
+T = [[c, 'x' + d], ['y', c + d]]
+data = csvref.write_table(T, ',', 'quoted').encode(ENC)
+sink_out = KeepBytes()
+sink_file = KeepBytes()
+fake_stdout = io.TextIOWrapper(sink_out, encoding=('utf-8' if ENC == 'latin-1' else 'latin-1'), errors='replace')   # the terminal's own encoding differs from the requested one
+fake_stdin = io.TextIOWrapper(io.BytesIO(data), encoding='ascii', errors='replace')
+rbql_csv.sys = types.SimpleNamespace(stdin=fake_stdin, stdout=fake_stdout, stderr=None, version_info=__import__('sys').version_info)
+rbql_csv.open = lambda path, mode='r': sink_file
+warnings = []
+rbql_csv.query_csv('select a2, a1', None, ',', 'quoted', None if TO_STDOUT else '/d/out.csv', ',', 'quoted', ENC, warnings, False)
+try:
+    fake_stdout.flush()
+except Exception:
+    pass
+got = (sink_out if TO_STDOUT else sink_file).getvalue()
+exp = csvref.write_table([[r[1], r[0]] for r in T], ',', 'quoted').encode(ENC)
+return ((got, warnings), (exp, []))
+''')
+    src = harness('ENC = %r\nTO_STDOUT = %r\n' % (enc, to_stdout), [('n0', 'int'), ('n1', 'int')], ['n0 in POOL[ENC]', 'n1 in POOL[ENC]'], body, extra_defs=STDIO)
+    return Obl('stdio_bytes[%s,%s]' % (enc, 'stdout' if to_stdout else 'file'), src, timeout=timeout,
+               meta={'function': 'rbql_csv.query_csv (stdin -> stdout / output file) with the real encode_input_stream / encode_output_stream',
+                     'bounds': '2x2 table with two cells drawn from a 4-member pool per encoding (ASCII, two non-ASCII, double quote), solver-enumerated and concrete per path'})
+
+
 def obligations(tier, seed):
     obs = []
     quick = tier == 'quick'
@@ -329,6 +386,11 @@ def obligations(tier, seed):
                 obs.append(_adapter_obl(qn, shp, None, t, 'via_csv', (',', 'quoted')))
         if not quick:
             obs.append(_adapter_obl(qn, ['cc', 'cz'], ['cz'] if jn else None, t, 'via_csv', (',', 'quoted_rfc')))
+    for qn, b in (('update-append', None), ('update', None), ('update-swap-join', ['cc', 'cz']), ('star-order', None)):
+        obs.append(_adapter_obl(qn, ['cc', 'cz'], b, t, 'via_sequence'))
+    for enc in ('latin-1', 'utf-8'):
+        for to_stdout in (True, False):
+            obs.append(_stdio_obl(enc, to_stdout, t))
     for an in ARGVS:
         obs.append(_cli_obl(an, t))
     obs.append(_cli_reject_obl('policy-without-delim', ['--policy', 'simple', '--query', 'select a1'], 60))
